@@ -40,7 +40,8 @@ try:
         b = json.load(open("/root/.vp/BASELINE.json"))
         junit = tempfile.mktemp(suffix=".xml", dir="/tmp")
         cmd = b["cmd"].replace("cd /repo", f"cd {wt}").replace("<file>", junit)
-        subprocess.run(cmd, shell=True, env=dict(env), stdout=subprocess.DEVNULL, stderr=subprocess.DEVNULL)
+        suite_env = dict(env, PATH=os.environ["PATH"])  # like the baseline: no semgrep binary on PATH
+        subprocess.run(cmd, shell=True, env=suite_env, stdout=subprocess.DEVNULL, stderr=subprocess.DEVNULL)
         passed = set()
         for tc in ET.parse(junit).getroot().iter("testcase"):
             if not any(ch.tag in ("failure", "error", "skipped") for ch in tc):
